@@ -2,7 +2,7 @@ SPECIFICATION SpecBig
 CONSTANTS
   MaxClocks = 64
   Rounds = 1
-  DVals = {1, 2, 3, 5}
+  DVals = {1, 2, 3, 5, 90, 7200, 259200, 3000000}
   Overlap = TRUE
   Hist = TRUE
   Fault = "none"
